@@ -684,6 +684,16 @@ class Renderer:
             r = self.try_r3(n, m, recv, args[0])
             if r is not None:
                 return r
+        # R19: M.retain2(|_, _| L.next().unwrap_or(LIT))  ->  M.__retain2_blind()
+        # a closure that ignores both entry arguments and only drains a local iterator of recorded answers: the map keeps
+        # a sub-sequence of untouched entries, whatever the answers are.  The closure body (panic-free: next + unwrap_or) is dropped.
+        if m == "retain2" and len(args) == 1 and args[0]["k"] == "Closure" and not self.plain:
+            c = args[0]
+            pats = [compact(i["text"]) for i in c["inputs"]]
+            body = compact(self.t(*c["body"]))
+            if pats == ["_", "_"] and re.match(r"^\w+\.next\(\)\.unwrap_or\((true|false)\)$", body):
+                self.log.append("R19 retain2(closure ignoring the entries, draining recorded answers) -> __retain2_blind()")
+                return "%s.__retain2_blind()" % self.render(recv)
         # R12: size_hint of a generic iterator
         if m == "size_hint" and not args and self.rw.get("size_hint_stub"):
             self.log.append("R12 .size_hint() -> __size_hint(&..)")
